@@ -118,7 +118,7 @@ def featureful(seed, k, rng):
                lib_as=("shared" if rng.random() < 0.3 else None), p_ext=0.0 if k % 2 == 0 else 0.3,
                # enums without a zero member (the linter warns, the compiler accepts): defaults and factories
                p_enum_nonzero_first=0.5 if k % 4 == 1 else 0.0)
-    pr, _ = gen.rand_case(seed, 210000 + k, **cfg)
+    pr, _ = gen.rand_case(seed, 210000 + k, **cfg, reuse_names=0)
     p = copy.deepcopy(pr)
     p.pop("rtype", None)
     main = p["files"][p["main"]]
@@ -234,7 +234,10 @@ def featureful(seed, k, rng):
                 x = rng.choice(tl)
                 appm = [d for d in p["files"][p["main"]] if d["d"] == "message"][0]
                 appm["body"].append({"d": "field", "name": "z", "num": 7,
-                                     "t": gen.tref([old_main, cfg["lib_as"] or old_libs[0], x["name"]])})
+                                     # the imported file is a member of main under its `as` name or its PROTO name
+                                     "t": gen.tref([old_main, cfg["lib_as"] or
+                                                    [y for y in p["files"][old_libs[0]] if y["d"] == "proto"][-1]["name"],
+                                                    x["name"]])})
                 tags.add("transitive-dotted-reference")
     return p, tags
 
@@ -384,7 +387,8 @@ def main(tier, replay=None):
                 os.makedirs(vd)
                 try:
                     lang = kw.pop("lang")
-                    drive.compile_program(paths, pr["order"], lang, vd, **kw)
+                    # every other schema takes the command line's ordinary path: the linter runs before the renderer
+                    drive.compile_program(paths, pr["order"], lang, vd, lint=(k % 2 == 0), **kw)
                     events.append({"ev": "Render", "outcome": "ok", "what": variant})
                     outs[variant] = vd
                 except Exception as exc:
